@@ -6,8 +6,18 @@ import (
 	"time"
 )
 
+// Duration converts seconds to a time.Duration. Values beyond the range of
+// time.Duration saturate, as durations computed by time.Time.Sub do; the
+// result of converting an out-of-range float to an integer is not defined.
 func Duration(seconds float64) time.Duration {
-	return time.Duration(seconds * float64(time.Second))
+	ns := seconds * float64(time.Second)
+	if ns >= math.MaxInt64 {
+		return math.MaxInt64
+	}
+	if ns <= math.MinInt64 {
+		return math.MinInt64
+	}
+	return time.Duration(ns)
 }
 
 func Sgn(d time.Duration) int {
